@@ -575,8 +575,16 @@ pub async fn run_schedule(cfg: WireConfig, ops: &[Op], drain: Drain, oracle: &mu
                 }
             }
             Op::Advance(dt) => {
-                advance(&mut w, dt.dur()).await;
-                step!(op);
+                // in slices of 50 ms, the oracle looks after every slice (a long advance would
+                // otherwise hide when something became active or expired)
+                let mut left = dt.dur();
+                let slice = Duration::from_millis(50);
+                while left > Duration::ZERO {
+                    let s = left.min(slice);
+                    tokio::time::sleep(s).await;
+                    left -= s;
+                    step!(op);
+                }
             }
             Op::Restart(i) => {
                 let n = w.nodes.len();
@@ -634,8 +642,16 @@ pub async fn run_schedule(cfg: WireConfig, ops: &[Op], drain: Drain, oracle: &mu
             } else {
                 w.pool.clear();
             }
-            advance(&mut w, Duration::from_millis(REQUEST_TIMEOUT_MS + 50)).await;
-            step!(&Op::Advance(Dt::TimeoutPlus));
+            {
+                let mut left = Duration::from_millis(REQUEST_TIMEOUT_MS + 50);
+                let slice = Duration::from_millis(50);
+                while left > Duration::ZERO {
+                    let s = left.min(slice);
+                    tokio::time::sleep(s).await;
+                    left -= s;
+                    step!(&Op::Advance(Dt::TimeoutPlus));
+                }
+            }
         }
         if drain == Drain::Silent {
             w.pool.clear();
